@@ -552,7 +552,7 @@ template<class T> static void ReplayOne(const mj::Value & beh, int startConfig, 
       }
       std::vector<std::string> diffs = ob.bad; char b[400];
       const std::string wantSt = s["st"].str();
-      if (!((wantSt == ob.st)||((wantSt == "err")&&(ob.st != "ok")&&(ob.st != "")))) {snprintf(b, sizeof(b), "status: the ideal sequence says \"%s\", the Queue returned \"%s\"", wantSt.c_str(), ob.st.c_str()); diffs.push_back(b);}
+      if (!((wantSt == ob.st)||((wantSt == "err")&&(ob.st != "ok")&&(ob.st != ""))||((wantSt == "okerr")&&(ob.st != "")))) {snprintf(b, sizeof(b), "status: the ideal sequence says \"%s\", the Queue returned \"%s\"", wantSt.c_str(), ob.st.c_str()); diffs.push_back(b);}
       if ((ob.r < s["lo"].i())||(ob.r > s["hi"].i())) {snprintf(b, sizeof(b), "result: the ideal sequence says %ld..%ld, the Queue returned %d", (long) s["lo"].i(), (long) s["hi"].i(), ob.r); diffs.push_back(b);}
       if (ob.rs != ToIV(s["rs"])) diffs.push_back("iteration: the ideal sequence says " + IVStr(ToIV(s["rs"])) + ", the iterator returned " + IVStr(ob.rs));
       const IV wantO = ToIV(s["o"]);
@@ -621,7 +621,6 @@ template<class T> struct RandomDriver
    int Size() const {return (int) cur.size();}
    RingPos Pos() const {return Sub::PosOf(*sub->q);}
    int BigCode() {const int codes[] = {95, 96, 97, 99}; return codes[rng.Below(4)];}   // a boundary value of the argument type (see U())
-   static int NotSignBit(int code) {return (code == 96) ? 97 : code;}     // AddHeadMulti(queue, startIndex = 0x80000000) is the open known finding QaddHeadStartSign and is kept out
    int Idx() {return rng.Chance(7) ? BigCode() : (int) rng.Below((uint32) Size()+2);}   // valid indices, the first invalid one, one beyond; now and then a boundary value of uint32
    int ValidIdx() {return (int) rng.Below((uint32) Size());}
    int Lim() {return rng.Chance(40) ? NOLIMIT : (rng.Chance(8) ? BigCode() : (int) rng.Below((uint32) Size()+3));}
@@ -681,11 +680,11 @@ template<class T> struct RandomDriver
       const IV src = Src(6); const int n = (int) src.size();
       switch(rng.Below(13)) {
          case 0: Do(OP_AddTailMulti, rng.Chance(50) ? 0 : (rng.Chance(8) ? BigCode() : (int) rng.Below(n+2)), rng.Chance(50) ? NOLIMIT : (rng.Chance(8) ? BigCode() : (int) rng.Below(n+2)), 0, 0, src); break;
-         case 1: Do(OP_AddHeadMulti, rng.Chance(50) ? 0 : (rng.Chance(8) ? NotSignBit(BigCode()) : (int) rng.Below(n+2)), rng.Chance(50) ? NOLIMIT : (rng.Chance(8) ? BigCode() : (int) rng.Below(n+2)), 0, 0, src); break;
+         case 1: Do(OP_AddHeadMulti, rng.Chance(50) ? 0 : (rng.Chance(8) ? BigCode() : (int) rng.Below(n+2)), rng.Chance(50) ? NOLIMIT : (rng.Chance(8) ? BigCode() : (int) rng.Below(n+2)), 0, 0, src); break;
          case 2: Do(OP_AddTailMultiArr, 0, 0, 0, 0, src); break;
          case 3: Do(OP_AddHeadMultiArr, 0, 0, 0, 0, src); break;
          case 4: Do(OP_AddTailMultiSelf, rng.Chance(50) ? 0 : Idx(), Lim()); break;
-         case 5: Do(OP_AddHeadMultiSelf, rng.Chance(50) ? 0 : NotSignBit(Idx()), Lim()); break;
+         case 5: Do(OP_AddHeadMultiSelf, rng.Chance(50) ? 0 : Idx(), Lim()); break;
          case 6: case 7: Do(OP_InsertItemsAt, Idx(), rng.Chance(50) ? 0 : (rng.Chance(8) ? BigCode() : (int) rng.Below(n+2)), rng.Chance(50) ? NOLIMIT : (rng.Chance(8) ? BigCode() : (int) rng.Below(n+2)), 0, src); break;
          case 8: Do(OP_InsertItemsAtArr, Idx(), 0, 0, 0, src); break;
          case 9: Do(OP_InsertItemsAtSelf, Idx(), rng.Chance(50) ? 0 : Idx(), Lim()); break;
@@ -735,7 +734,8 @@ template<class T> struct RandomDriver
          case 8: if (rng.Chance(30)) Do(OP_ReplaceAll, 0, 0, 0, V()); break;
          case 9: Do(OP_EnsureSize, rng.Chance(6) ? BigCode() : (int) rng.Below(14)); break;
          case 10: Do(OP_EnsureSizeSet, rng.Chance(6) ? BigCode() : (int) rng.Below((uint32) Size()+4)); break;
-         case 11: if (rng.Chance(6)) Do(rng.Chance(35) ? OP_EnsureSizeSetX : OP_EnsureSizeX, BigCode(), 0, (int) rng.Below(2));     // (never a boundary value for extraReallocItems: open known finding QextraOverflow)
+         case 11: if (rng.Chance(6)) Do(rng.Chance(35) ? OP_EnsureSizeSetX : OP_EnsureSizeX, BigCode(), 0, (int) rng.Below(2));
+                  else if (rng.Chance(8)) Do(OP_EnsureSizeX, rng.Chance(20) ? BigCode() : (int) rng.Below(12), BigCode(), (int) rng.Below(2));     // a boundary value for extraReallocItems (not together with setNumItems = true: reported divergence from the header)
                   else Do(rng.Chance(35) ? OP_EnsureSizeSetX : OP_EnsureSizeX, (int) rng.Below(12), (int) rng.Below(3), (int) rng.Below(2));
                   break;    // EnsureSize(n, set, extra, allowShrink), n below the item count included
          case 12: Do(OP_EnsureCanAdd, rng.Chance(8) ? BigCode() : (int) rng.Below(6)); break;
@@ -895,7 +895,7 @@ template<class T> static int Random(uint64 seed, long runs, long nops, const cha
 }
 
 // ---------------------------------------------------------------------------------------------------------------------------
-// directed cases of the known findings (open: swapstale; repaired in /repo and judged as ordinary cases: the other three)
+// directed cases of the known findings (open: swapstale; repaired in /repo and judged as ordinary cases: all the others)
 
 static int Directed(const char * name, const char * outFile)
 {
